@@ -57,6 +57,23 @@ func zvC05Configs(thorough bool) []*zvCfg {
 				} else {
 					off = append(off, c)
 				}
+				if pol == "accept" || pol == "lp200" {
+					// attribute sets that differ ONLY in what best-path selection does not look at (AS path content of equal
+					// length): a re-announcement must still replace the stored path (Path.Equal is preference equality only)
+					d := *c
+					d.Vars = zvC05Vars(ibgp, 1)
+					tw := d.Vars[0]
+					tw.Name = "a1b"
+					tw.Segs = []zvSeg{{false, append(append([]uint32{}, tw.Segs[0].ASNs[:len(tw.Segs[0].ASNs)-1]...), 65011)}}
+					d.Vars = append(d.Vars, tw)
+					d.NPfx = 2
+					d.Name = fmt.Sprintf("addpath=%v ibgp=%v policy=%s (attribute sets differing only in AS path content)", ap, ibgp, pol)
+					if ap {
+						on = append(on, &d)
+					} else {
+						off = append(off, &d)
+					}
+				}
 				if thorough && ap && (pol == "accept" || pol == "lp200") {
 					// three path identifiers per prefix
 					d := *c
